@@ -123,25 +123,37 @@ Fixpoint at_path (p : list bytes) (f : fnode -> fres fnode) (n : fnode) : fres f
       end
   end.
 
-(* change the directory entry p: g gets the current binding of the last component and returns
-   the new one together with "the set of entries changed" (then the directory's mtime is Now) *)
+(* parent directory and last component; None for the root *)
+Fixpoint split_last (p : list bytes) : option (list bytes * bytes) :=
+  match p with
+  | [] => None
+  | x :: r => match split_last r with
+              | None => Some ([], x)
+              | Some (d, l) => Some (x :: d, l)
+              end
+  end.
+
+(* what happens inside the parent directory when the entry nm is changed: g gets the current
+   binding and returns the new one and whether the set of entries changed (then the
+   directory's mtime becomes Now) *)
+Definition in_dir (nm : bytes) (g : option fnode -> fres (option fnode * bool)) (d : fnode) : fres fnode :=
+  match d with
+  | FDir m l =>
+      match g (assoc nm l) with
+      | FErr e => FErr e
+      | FOk (o', touched) =>
+          match upd_ents (fun _ => FOk o') nm l with
+          | FOk l' => FOk (FDir (if touched then set_mtime m Now else m) l')
+          | FErr e => FErr e
+          end
+      end
+  | _ => FErr ENOTDIR
+  end.
+
 Definition entry_op (p : list bytes) (g : option fnode -> fres (option fnode * bool)) (s : fnode) : fres fnode :=
-  match rev p with
-  | [] => FErr EINVAL                                   (* the root has no entry *)
-  | nm :: rparent =>
-      at_path (rev rparent)
-        (fun d => match d with
-                  | FDir m l =>
-                      match g (assoc nm l) with
-                      | FErr e => FErr e
-                      | FOk (o', touched) =>
-                          match upd_ents (fun _ => FOk o') nm l with
-                          | FOk l' => FOk (FDir (if touched then set_mtime m Now else m) l')
-                          | FErr e => FErr e
-                          end
-                      end
-                  | _ => FErr ENOTDIR
-                  end) s
+  match split_last p with
+  | None => FErr EINVAL                                   (* the root has no entry *)
+  | Some (parent, nm) => at_path parent (in_dir nm g) s
   end.
 
 (* ---------- system calls ---------- *)
